@@ -643,6 +643,20 @@ class History:
                 return ok(self.vars[step["v"]])
 
             alts.append(run_concat)
+        elif op == "newarr":
+            vals = [self.value(x) for x in step["args"]]
+            expr = "(%s = %sArray(%s))" % (tgt, "new " if step.get("new") else "", ", ".join(j for _, j in vals))
+
+            def run_newarr():
+                ms = [m for m, _ in vals]
+                if len(ms) == 1 and isinstance(ms[0], float):
+                    if float(P.to_uint32(ms[0])) != ms[0]:
+                        return ["throw", ["err", "RangeError"]]
+                    ms = [UNDEF] * int(ms[0])  # no holes: undefined elements (spec.md)
+                self.vars[step["v"]] = R.Arr(ms)
+                return ok(self.vars[step["v"]])
+
+            alts.append(run_newarr)
         elif op == "slice":
             vals = [self.value(x) for x in step["args"]]
             expr = "(%s = V[%d].slice(%s))" % (tgt, step["w"], ", ".join(j for _, j in vals))
@@ -664,23 +678,25 @@ class History:
         if sortinfo is not None:
             before, c, fn = sortinfo
             after = [G.model_from_cv(x, [], list(self.recs.values())) for x in act[2]]
-            nvals = len([x for x in before if x is not UNDEF])
+            vals = [x for x in before if x is not UNDEF]
+            exp_res = None
+            if len(vals) < 2:
+                c = lambda x, y: 0.0  # noqa: E731  (the comparator is never called)
             try:
                 why = R.sort_verdict(before, after, c)
-                exp_res = None
-            except R.Throw as t:  # throwing comparator
-                if nvals >= 2:
-                    # the order after an aborted sort is implementation-defined: a permutation
-                    why = R.sort_verdict(before, after, lambda x, y: -1.0)
-                    if why == "undefined not last":
-                        why = None
-                    exp_res = ["throw", self.cv(t.value)]
-                else:
-                    why = R.sort_verdict(before, after, lambda x, y: 0.0)
-                    exp_res = None
+                R.consistent(vals, c)  # does the comparator throw on these elements?
+            except R.Throw as t:
+                # aborted sort: the order is implementation-defined, but still a permutation
+                exp_res = ["throw", self.cv(t.value)]
+                why = R.sort_verdict(before, after, lambda x, y: -1.0)
+                if why == "undefined not last":
+                    why = None
             if why:
-                if R.consistent([x for x in before if x is not UNDEF], c):
-                    R.m_sort(R.Env(), a, [fn])
+                try:
+                    if R.consistent([x for x in before if x is not UNDEF], c):
+                        R.m_sort(R.Env(), a, [fn])
+                except R.Throw:
+                    pass
                 return self.fail(step, "sort:" + why, [self.cvR(a), self.state(step["v"], want_keys)], act)
             a.items[:] = after  # a valid order: adopt it (unique when the comparator is consistent)
             exp = [exp_res or ["ok", self.cvR(a)]] + self.state(step["v"], want_keys)
@@ -866,6 +882,10 @@ def hist_task(task):
         def setlen(self, v, val):
             self.do({"op": "setlen", "v": v, "val": val})
 
+        @rule(v=var, n=st.one_of(st.integers(0, 6).map(num), st.sampled_from([num(-1), num(1.5), NAN, sstr("2"), TRUE])), new=st.booleans())
+        def newarr(self, v, n, new):
+            self.do({"op": "newarr", "v": v, "args": [n], "new": new})
+
         @rule(v=var, w=var, x=var, extra=elem)
         def concat(self, v, w, x, extra):
             if 2 * len(self.h.vars[w].items) + len(self.h.vars[x].items) + 1 > 48:
@@ -915,6 +935,10 @@ def assign_cells():
                                                      sstr("1.5"), sstr("0x2"), U, L, TRUE, ["b", 0], ["vo", num(1)]]
         for k in lens:
             cells.append([{"op": "fresh", "v": 0, "items": base}, {"op": "alias", "v": 1, "w": 0}, {"op": "setlen", "v": 1, "val": k}])
+    for args in [[], [num(0)], [num(3)], [num(-1)], [num(1.5)], [NAN], [num(2 ** 32)], [PINF], [num(-0.0)], [sstr("3")], [TRUE], [L], [U],
+                 [num(2), num(3)], [num(-1), num(1.5)], [["rec", 1, None]]]:
+        for new in (True, False):
+            cells.append([{"op": "fresh", "v": 0, "items": [num(1)]}, {"op": "newarr", "v": 0, "args": args, "new": new}])
     return cells
 
 
@@ -936,7 +960,10 @@ def run_assign(chk, guards):
             raise engine.HarnessError("C17 assignment batch %r" % rb)
         for steps, f in zip(batch, rb):
             last = steps[-1]
-            key = "b|assign|%d|%s|%s|%s" % (len(steps[0]["items"]), last["op"], G.spec_key(last.get("key") or last["val"]), G.spec_key(last["val"]))
+            if last["op"] == "newarr":
+                key = "b|newarr|%s|%s" % ("new" if last["new"] else "call", ",".join(G.spec_key(x) for x in last["args"]))
+            else:
+                key = "b|assign|%d|%s|%s|%s" % (len(steps[0]["items"]), last["op"], G.spec_key(last.get("key") or last["val"]), G.spec_key(last["val"]))
             chk.count()
             chk.nontrivial(key)
             chk.classify("assign " + last["op"])
@@ -965,6 +992,662 @@ def run_hist(chk, guards, methods):
             chk.violation(f["signature"], {"kind": "hist", "steps": f["steps"]}, f["expected"], f["actual"], sub="hist")
 
 
+# ====================================================================== (c)
+TYPED_VOCAB = ["at", "copyWithin", "entries", "every", "fill", "filter", "find", "findIndex", "findLast", "findLastIndex",
+               "forEach", "includes", "indexOf", "join", "keys", "lastIndexOf", "map", "reduce", "reduceRight", "reverse",
+               "set", "slice", "some", "sort", "subarray", "toLocaleString", "toReversed", "toSorted", "toString", "values", "with"]
+TYPED_MODELLED = {"set", "subarray", "fill", "join", "toString", "slice", "reverse"}
+TYPED_PRELUDE = (
+    "function dump(t) { var r = []; for (var i = 0; i < t.length && i < 64; i++) r.push(t[i]); return r; }\n"
+    "function tv(v) { return [typeof v, v]; }\n"
+    "function keysOf(o) { var r = []; for (var k in o) r.push(k); return r; }\n"
+    "function errName(e) { return (typeof e === 'object' && e !== null && typeof e.name === 'string') ? e.name : 'non-error'; }\n"
+)
+
+
+def spec_js(s):
+    t = s[0]
+    if G.is_pspec(s):
+        return P.js_literal(G.pvalue(s))
+    if t == "obj":
+        return "({})"
+    if t == "arr":
+        return "[" + ", ".join(spec_js(x) for x in s[1]) + "]"
+    if t == "vo":
+        return "({valueOf: function() { return %s; }})" % P.js_literal(G.pvalue(s[1]))
+    if t == "ts":
+        return "({toString: function() { return %s; }})" % P.js_literal(G.pvalue(s[1]))
+    if t == "fn":
+        return "(function() {})"
+    raise KeyError(t)
+
+
+def spec_model(s):
+    t = s[0]
+    if G.is_pspec(s):
+        return G.pvalue(s)
+    if t == "obj":
+        return R.Obj()
+    if t == "arr":
+        return R.Arr([spec_model(x) for x in s[1]])
+    if t == "vo":
+        return R.Obj(value_of=G.pvalue(s[1]))
+    if t == "ts":
+        return R.Obj(to_str=G.pvalue(s[1]))
+    if t == "fn":
+        return R.Fn(None)
+    raise KeyError(t)
+
+
+def spec_number(s):
+    """ToNumber of the value a spec denotes; None for undefined-as-missing is
+    handled by the callers."""
+    return R.to_number(spec_model(s))
+
+
+def ncv(x):
+    """canonical form of a number a typed array hands out (None = undefined)."""
+    if x is None:
+        return ["u"]
+    return ["n", P.numkey(x)]
+
+
+STORE_VALUES = [num(x) for x in V.NUMS] + [
+    num(x) for x in (2.5, -129.0, 127.0, 128.0, -128.0, 129.0, 254.5, 255.5, 0.49999999999999994, 0.5000000000000001, 32767.0, 32768.0, -32769.0,
+                     65535.5, 4294967301.0, 1e20, -1e20, 3.4028234663852886e38, 3.4028235677973366e38, 3.402823567797337e38, 1e39, -1e39, 1e-46,
+                     1.401298464324817e-45, 7e-46, 16777217.0, 0.1, 2147483648.5, -2147483648.5, 9007199254740993.0 * 1024)
+] + [sstr("3"), sstr(" 12 "), sstr("0x10"), sstr("abc"), sstr(""), sstr("-1.5"), sstr("1e3"), TRUE, ["b", 0], L, U,
+     ["obj"], ["arr", []], ["arr", [num(7)]], ["arr", [num(1), num(2)]], ["vo", num(300)], ["ts", sstr("9")], ["fn"]]
+STORE_FORMS = {
+    "assign": "var t = new K(2); t[0] = x; return [tv(t[0]), tv(t[1])];",
+    "fromarray": "var t = new K([x, 1]); return [tv(t[0]), tv(t[1])];",
+    "set": "var t = new K(2); t.set([1, x]); return [tv(t[1]), tv(t[0])];",
+    "fill": "var t = new K(2); t[1] = 1; t.fill(x, 0, 1); return [tv(t[0]), tv(t[1])];",
+    "viaf64": "var t = new K(new Float64Array([x, 1])); return [tv(t[0]), tv(t[1])];",
+}
+
+
+def _dedupe_specs(specs):
+    seen, out = set(), []
+    for s in specs:
+        k = G.spec_key(s)
+        if k not in seen:
+            seen.add(k)
+            out.append(s)
+    return out
+
+
+def typed_cells(tmethods):
+    """Every cell of campaign (c) parts 1 and 2: dicts with a key."""
+    cells = []
+    vals = _dedupe_specs(STORE_VALUES)
+    for kind in T.KIND_NAMES:
+        for form in STORE_FORMS:
+            if form in ("set", "fill") and form not in tmethods:
+                continue
+            for v in vals:
+                if form == "viaf64" and not G.is_pspec(v):
+                    continue
+                cells.append({"t": "store", "kind": kind, "form": form, "v": v})
+    lens = [None, U, L, num(0), num(1), num(3), num(1.5), num(-0.0), num(-1), num(-0.5), NAN, sstr("2"), sstr("x"), TRUE, num(2 ** 53), PINF, NINF, ["arr", []],
+            ["arr", [num(1), num(2)]]]
+    for kind in T.KIND_NAMES:
+        for a in lens:
+            cells.append({"t": "ctorlen", "kind": kind, "a": a})
+    for a in lens:
+        if a is None or a[0] != "arr":
+            cells.append({"t": "buflen", "kind": "ArrayBuffer", "a": a})
+    offs = [None, U, num(0), num(1), num(2), num(4), num(8), num(16), num(17), num(-1), num(1.5), NAN, sstr("4")]
+    blens = [None, U, num(0), num(1), num(2), num(3), num(-1), NAN, num(1.5)]
+    for kind in T.KIND_NAMES:
+        for nbytes in (0, 7, 8, 16):
+            for off in offs:
+                for ln in blens:
+                    if off is None and ln is not None:
+                        continue
+                    cells.append({"t": "ctorbuf", "kind": kind, "n": nbytes, "off": off, "len": ln})
+    idx = [None, U, num(-1), num(0), num(1), num(2), num(5), num(6), num(-6), NAN, PINF, NINF, num(1.9)]
+    if "subarray" in tmethods:
+        for kind in T.KIND_NAMES:
+            for base in ("own", "view"):
+                for b in idx:
+                    for e in idx:
+                        if b is None and e is not None:
+                            continue
+                        cells.append({"t": "subarray", "kind": kind, "base": base, "b": b, "e": e})
+    if "set" in tmethods:
+        srcs = ["[5, 6]", "[5, 6, 7, 8, 9]", "[]", "new Float64Array([1.5, 300])", "t.subarray(0, 2)", "t.subarray(1, 4)", "new K([7])", "['8', true]", "new Int8Array([-1, -2])"]
+        soffs = [None, U, num(0), num(1), num(2), num(3), num(4), num(5), num(-1), NAN, num(1.9), PINF, sstr("1")]
+        for kind in T.KIND_NAMES:
+            for src in srcs:
+                if "subarray" in src and "subarray" not in tmethods:
+                    continue
+                for off in soffs:
+                    cells.append({"t": "set", "kind": kind, "src": src, "off": off})
+    keys = [num(-1), num(0), num(2), num(3), num(8), num(1.5), num(-0.0), sstr("-0"), sstr("1"), sstr("01"), sstr("x"), NAN, sstr("1.0"), sstr("1e0"), num(2 ** 32), PINF,
+            TRUE, sstr("Infinity"), sstr("-1")]
+    for kind in T.KIND_NAMES:
+        for k in keys:
+            cells.append({"t": "index", "kind": kind, "k": k})
+        cells.append({"t": "props", "kind": kind})
+        for sep in [None, U, sstr("-"), num(1)]:
+            cells.append({"t": "join", "kind": kind, "sep": sep})
+        cells.append({"t": "tostring", "kind": kind})
+    for c in cells:
+        c["key"] = "c|" + "|".join(
+            str(c[f]) if not isinstance(c[f], list) else G.spec_key(c[f]) for f in ("t", "kind", "form", "base", "n", "src", "a", "off", "len", "b", "e", "k", "sep", "v") if f in c and c[f] is not None
+        ) + ("|" + ",".join(f for f in ("a", "off", "len", "b", "e", "sep") if f in c and c[f] is None) if any(f in c and c[f] is None for f in ("a", "off", "len", "b", "e", "sep")) else "")
+    return cells
+
+
+def _args_js(*specs):
+    """Trailing None (= argument not passed) dropped; an inner None cannot occur."""
+    out = []
+    for s in specs:
+        if s is None:
+            break
+        out.append(spec_js(s))
+    return ", ".join(out)
+
+
+JOIN_VALUES = {"float": [0.1, -0.0, math.nan, 1e21, math.inf, -1.5, 1e-7, 16777217.0], "int": [0.0, 1.0, 255.0, -1.0, 300.0, 65537.0], "clamp": [0.0, 1.5, 300.0, -4.0]}
+
+
+def typed_cell_js(c):
+    """JS function body of a cell (uses K for the constructor)."""
+    t = c["t"]
+    if t == "store":
+        return "var x = %s; %s" % (spec_js(c["v"]), STORE_FORMS[c["form"]])
+    if t == "ctorlen":
+        return "var t = new K(%s); return [t.length, t.byteLength, t.byteOffset, t.BYTES_PER_ELEMENT, dump(t)];" % _args_js(c["a"])
+    if t == "buflen":
+        return "var b = new ArrayBuffer(%s); return [b.byteLength];" % _args_js(c["a"])
+    if t == "ctorbuf":
+        return "var b = new ArrayBuffer(%d); var t = new K(b%s); return [t.length, t.byteOffset, t.byteLength, t.buffer === b];" % (
+            c["n"], "".join(", " + spec_js(x) for x in (c["off"], c["len"]) if x is not None))
+    if t == "subarray":
+        mk = "var t = new K([1, 2, 3, 4, 5]);" if c["base"] == "own" else "var b = new ArrayBuffer(64); var t = new K(b, 8, 5); for (var i = 0; i < 5; i++) t[i] = i + 1;"
+        return (mk + " var s = t.subarray(%s); var r = [s.length, s.byteOffset - t.byteOffset, dump(s), s.buffer === t.buffer];"
+                " if (s.length > 0) { s[0] = 9; r.push(dump(t)); } return r;" % _args_js(c["b"], c["e"]))
+    if t == "set":
+        return "var t = new K([1, 2, 3, 4]); var r = t.set(%s%s); return [typeof r, dump(t)];" % (c["src"], "" if c["off"] is None else ", " + spec_js(c["off"]))
+    if t == "index":
+        k = spec_js(c["k"])
+        return "var t = new K([1, 2, 3]); var before = tv(t[%s]); t[%s] = 7; return [before, tv(t[%s]), dump(t), t.length];" % (k, k, k)
+    if t == "props":
+        return ("var t = new K(3); var b = t.buffer; return [typeof b, b === t.buffer, (typeof b === 'object' && b !== null) ? b.byteLength : -1, t.byteLength, t.byteOffset,"
+                " t.BYTES_PER_ELEMENT, K.BYTES_PER_ELEMENT, t.length];")
+    if t in ("join", "tostring"):
+        fam = T.KINDS[c["kind"]][1]
+        vals = ", ".join(P.js_literal(x) for x in JOIN_VALUES[fam])
+        if t == "join":
+            return "var t = new K([%s]); return [t.join(%s)];" % (vals, _args_js(c["sep"]))
+        return "var t = new K([%s]); return [t.toString(), String(t), '' + t];" % vals
+    raise KeyError(t)
+
+
+def _tonum_or_none(s):
+    return None if (s is None or s == U) else spec_number(s)
+
+
+def _list_cv(xs):
+    return ["list", [x if isinstance(x, list) else (["b", int(x)] if isinstance(x, bool) else ncv(x)) for x in xs]]
+
+
+def typed_cell_expected(c):
+    """-> ["ok", canonical] | ["throw", "RangeError" | "TypeError"]."""
+    kind, t = c["kind"], c["t"]
+    size = T.size_of(kind) if kind in T.KINDS else 1
+    try:
+        if t == "store":
+            x = spec_number(c["v"])
+            if c["form"] == "viaf64":
+                pass  # Float64Array holds x exactly
+            conv = ncv(T.convert(kind, x))
+            one = ncv(1.0)
+            return ["ok", ["list", [conv, one if c["form"] in ("fromarray", "viaf64", "set", "fill") else ncv(0.0)]]]
+        if t == "ctorlen":
+            a = c["a"]
+            if a is not None and a[0] == "arr":
+                ta = T.new_ta_values(kind, [spec_number(x) for x in a[1]])
+            else:
+                ta = T.new_ta_length(kind, _tonum_or_none(a))
+            return ["ok", _list_cv([float(ta.length), float(ta.byte_length), 0.0, float(size), _list_cv(ta.values())])]
+        if t == "buflen":
+            return ["ok", _list_cv([float(T.new_buffer(_tonum_or_none(c["a"])).byte_length)])]
+        if t == "ctorbuf":
+            buf = T.new_buffer(float(c["n"]))
+            ta = T.new_ta_buffer(kind, buf, _tonum_or_none(c["off"]), _tonum_or_none(c["len"]))
+            return ["ok", _list_cv([float(ta.length), float(ta.offset), float(ta.byte_length), True])]
+        if t == "subarray":
+            if c["base"] == "own":
+                ta = T.new_ta_values(kind, [1.0, 2.0, 3.0, 4.0, 5.0])
+            else:
+                ta = T.new_ta_buffer(kind, T.new_buffer(64.0), 8.0, 5.0)
+                for i in range(5):
+                    ta.set(i, float(i + 1))
+            s = ta.subarray(_tonum_or_none(c["b"]), _tonum_or_none(c["e"]))
+            r = [float(s.length), float(s.offset - ta.offset), _list_cv(s.values()), True]
+            if s.length > 0:
+                s.set(0, 9.0)
+                r.append(_list_cv(ta.values()))
+            return ["ok", _list_cv(r)]
+        if t == "set":
+            ta = T.new_ta_values(kind, [1.0, 2.0, 3.0, 4.0])
+            src = {
+                "[5, 6]": [5.0, 6.0], "[5, 6, 7, 8, 9]": [5.0, 6.0, 7.0, 8.0, 9.0], "[]": [], "new Float64Array([1.5, 300])": [1.5, 300.0],
+                "t.subarray(0, 2)": ta.values()[0:2], "t.subarray(1, 4)": ta.values()[1:4], "new K([7])": [T.convert(kind, 7.0)], "['8', true]": [8.0, 1.0],
+                "new Int8Array([-1, -2])": [-1.0, -2.0],
+            }[c["src"]]
+            ta.set_from(src, _tonum_or_none(c["off"]))
+            return ["ok", _list_cv([["s", "undefined"], _list_cv(ta.values())])]
+        if t == "index":
+            ta = T.new_ta_values(kind, [1.0, 2.0, 3.0])
+            key = spec_model(c["k"])
+            ks = key if isinstance(key, str) else P.to_string(key)
+            numeric = ks == "-0" or P.to_string(P.to_number(ks)) == ks  # CanonicalNumericIndexString
+            if numeric:
+                i = T.canonical_index(-0.0 if ks == "-0" else P.to_number(ks))
+                before = ta.get(i) if i is not None else None
+                if i is not None:
+                    ta.set(i, 7.0)
+                after = ta.get(i) if i is not None else None
+                b, a_ = ncv(before), ncv(after)
+            else:  # an ordinary property
+                b, a_ = ["u"], ncv(7.0)
+            return ["ok", _list_cv([b, a_, _list_cv(ta.values()), 3.0])]
+        if t == "props":
+            return ["ok", _list_cv([["s", "object"], True, float(3 * size), float(3 * size), 0.0, float(size), float(size), 3.0])]
+        if t in ("join", "tostring"):
+            fam = T.KINDS[kind][1]
+            vals = [P.num_to_str(T.convert(kind, x)) for x in JOIN_VALUES[fam]]
+            if t == "join":
+                sep = "," if (c["sep"] is None or c["sep"] == U) else R.to_string(spec_model(c["sep"]))
+                return ["ok", _list_cv([["s", sep.join(vals)]])]
+            return ["ok", _list_cv([["s", ",".join(vals)]] * 3)]
+    except T.RangeErr:
+        return ["throw", "RangeError"]
+    except T.TypeErr:
+        return ["throw", "TypeError"]
+    raise KeyError(t)
+
+
+def _raw_list_cv(x):
+    if isinstance(x, list):
+        if len(x) == 2 and isinstance(x[0], str) and x[0] in ("undefined", "object", "boolean", "number", "string", "function") and not isinstance(x[1], list):
+            return G.cv_from_raw(x)
+        return ["list", [_raw_list_cv(e) for e in x]]
+    if isinstance(x, bool):
+        return ["b", int(x)]
+    if x is None:
+        return ["u"]  # dump() of a typed array never holds null
+    if isinstance(x, (int, float)):
+        return G._num_cv(x)
+    if isinstance(x, str):
+        return ["s", x]
+    return ["?", repr(x)[:60]]
+
+
+def typed_script(cells):
+    parts = [TYPED_PRELUDE, "var out = [];"]
+    for c in cells:
+        ctor = c["kind"]
+        parts.append(
+            "out.push((function(K) { try { return ['ok', (function() { %s })()]; } catch (e) { return ['throw', errName(e)]; } })(%s));"
+            % (typed_cell_js(c), ctor if ctor != "ArrayBuffer" else "null")
+        )
+    parts.append("out")
+    return "\n".join(parts)
+
+
+def typed_nontrivial(c):
+    if c["t"] == "store":
+        x = spec_number(c["v"])
+        return not (x == x and T.convert(c["kind"], x) == x and G.is_pspec(c["v"]) and c["v"][0] == "n")
+    return c["t"] in ("subarray", "set", "ctorbuf", "index")
+
+
+def eval_typed_batch(cells):
+    st, val = run_eval(typed_script(cells), time_limit=20, alarm=60)
+    if st == "ok" and isinstance(val, list) and len(val) == len(cells):
+        raws = [("ok", v) for v in val]
+    else:
+        raws = []
+        for c in cells:
+            st1, v1 = run_eval(typed_script([c]), time_limit=5, alarm=15)
+            raws.append(("ok", v1[0]) if (st1 == "ok" and isinstance(v1, list) and len(v1) == 1) else ("exc", v1 if st1 != "ok" else ["BADSHAPE", repr(v1)[:60]]))
+    out = []
+    for c, (st, raw) in zip(cells, raws):
+        exp = typed_cell_expected(c)
+        if st != "ok":
+            act = ["exception", raw[0], raw[1]]
+        elif raw[0] == "throw":
+            act = ["throw", raw[1]]
+        else:
+            act = ["ok", _raw_list_cv(raw[1])]
+        out.append((exp, act))
+    return out
+
+
+def typed_diff(exp, act):
+    if act[0] == "exception":
+        return "exc:%s" % act[1]
+    if exp[0] != act[0]:
+        return "%s-instead-of-%s" % (act[0], exp[0])
+    if exp[0] == "throw":
+        return "error-class"
+    return "value"
+
+
+def run_typed_cells(chk, guards, tmethods):
+    cells = typed_cells(tmethods)
+    if chk.tier == "quick":
+        rnd = random.Random(core.shard_seed(chk.seed, ID, "typedsample"))
+        cells = [c for c in cells if c["t"] not in ("ctorbuf", "subarray", "set") or rnd.random() < 0.25]
+    batches = pool.chunks(cells, 60)
+    for batch, rb in zip(batches, pool.run(eval_typed_batch, batches, timeout=300)):
+        if isinstance(rb, (pool.HANG, pool.CRASH)):
+            raise engine.HarnessError("C17 typed batch %r" % rb)
+        for c, (exp, act) in zip(batch, rb):
+            chk.count()
+            chk.classify("typed " + c["t"])
+            if typed_nontrivial(c):
+                chk.nontrivial(c["key"])
+            case = {"kind": "typed", "cell": {k: v for k, v in c.items() if k != "key"}}
+            sub = c.get("form") or c.get("base") or ""
+            ok = chk.cell(c["key"], exp, act, case, sub="typed", signature="typed|%s|%s|%s" % (c["t"], sub, typed_diff(exp, act)))
+            if ok and typed_nontrivial(c):
+                chk.sample({"cell": c["key"], "expected": exp, "actual": act}, cls="typed " + c["t"], per_class=1, total=24)
+
+
+# ---- (c) part 3: write/read sequences through several views of one buffer
+SEQ_BYTES = 24
+SEQ_VALUES = [num(x) for x in (0, 1, -1, 2, 127, 128, 255, 256, 257, -128, -129, 65535, 65536, 1.5, 2.5, -1.5, 0.1, 1e10, 2 ** 31, 2 ** 32 + 5, -2 ** 31 - 1,
+                               3e38, 1e39, -0.0, 5e-324, 16777217)] + [NAN, PINF, NINF, sstr("7"), TRUE, L, U]
+
+
+def seq_js(seq):
+    lines = [TYPED_PRELUDE, "var B = new ArrayBuffer(%d); var U8 = new Uint8Array(B); var out = [];" % SEQ_BYTES,
+             "function op(f) { try { out.push(['ok', f()]); } catch (e) { out.push(['throw', errName(e)]); } }",
+             "var v = [%s];" % ", ".join("new %s(B, %d, %d)" % (k, o, n) for k, o, n in seq["views"])]
+    for o in seq["ops"]:
+        t = o[0]
+        if t == "w":
+            body = "v[%d][%s] = %s; return 0;" % (o[1], spec_js(o[2]), spec_js(o[3]))
+        elif t == "r":
+            body = "return tv(v[%d][%s]);" % (o[1], spec_js(o[2]))
+        elif t == "set":
+            src = o[2]
+            if src[0] == "arr":
+                sj = "[" + ", ".join(spec_js(x) for x in src[1]) + "]"
+            elif src[0] == "view":
+                sj = "v[%d]" % src[1]
+            else:
+                sj = "v[%d].subarray(%s)" % (src[1], _args_js(src[2], src[3]))
+            body = "v[%d].set(%s%s); return 0;" % (o[1], sj, "" if o[3] is None else ", " + spec_js(o[3]))
+        elif t == "subw":
+            body = "var s = v[%d].subarray(%s); s[%s] = %s; return [s.length, dump(s)];" % (o[1], _args_js(o[2], o[3]), spec_js(o[4]), spec_js(o[5]))
+        elif t == "fill":
+            body = "v[%d].fill(%s); return 0;" % (o[1], _args_js(o[2], o[3], o[4]))
+        else:
+            raise KeyError(t)
+        lines.append("op(function() { %s });" % body)
+    lines.append("op(function() { return [dump(v[0]), dump(v[1]), dump(v[2]), dump(U8)]; });")
+    lines.append("out")
+    return "\n".join(lines)
+
+
+def _idx_of(spec):
+    """integer index a numeric key spec denotes (None = not a valid index)."""
+    key = spec_model(spec)
+    ks = key if isinstance(key, str) else P.to_string(key)
+    if ks == "-0" or P.to_string(P.to_number(ks)) != ks:
+        return None
+    return T.canonical_index(P.to_number(ks))
+
+
+def _any_cv(x):
+    return ["any"] if x is T.UNKNOWN else ncv(x)
+
+
+def seq_expected(seq):
+    buf = T.new_buffer(float(SEQ_BYTES))
+    views = [T.new_ta_buffer(k, buf, float(o), float(n)) for k, o, n in seq["views"]]
+    u8 = T.new_ta_buffer("Uint8Array", buf, 0.0, float(SEQ_BYTES))
+    out = []
+    for o in seq["ops"]:
+        t = o[0]
+        try:
+            if t == "w":
+                i = _idx_of(o[2])
+                x = spec_number(o[3])
+                if i is not None:
+                    views[o[1]].set(i, x)
+                out.append(["ok", ncv(0.0)])
+            elif t == "r":
+                i = _idx_of(o[2])
+                out.append(["ok", _any_cv(views[o[1]].get(i) if i is not None else None)])
+            elif t == "set":
+                src = o[2]
+                if src[0] == "arr":
+                    vals = [spec_number(x) for x in src[1]]
+                elif src[0] == "view":
+                    vals = views[src[1]].values()
+                else:
+                    vals = views[src[1]].subarray(_tonum_or_none(src[2]), _tonum_or_none(src[3])).values()
+                if any(x is T.UNKNOWN for x in vals):
+                    vals = [math.nan if x is T.UNKNOWN else x for x in vals]  # bytes of a NaN read as another type: value unknown
+                    views[o[1]].set_from(vals, _tonum_or_none(o[3]))
+                    raise _Unjudged()
+                views[o[1]].set_from(vals, _tonum_or_none(o[3]))
+                out.append(["ok", ncv(0.0)])
+            elif t == "subw":
+                s_ = views[o[1]].subarray(_tonum_or_none(o[2]), _tonum_or_none(o[3]))
+                i = _idx_of(o[4])
+                if i is not None:
+                    s_.set(i, spec_number(o[5]))
+                out.append(["ok", ["list", [ncv(float(s_.length)), ["list", [_any_cv(x) for x in s_.values()]]]]])
+            elif t == "fill":
+                views[o[1]].fill(spec_number(o[2]), _tonum_or_none(o[3]), _tonum_or_none(o[4]))
+                out.append(["ok", ncv(0.0)])
+        except T.RangeErr:
+            out.append(["throw", "RangeError"])
+    out.append(["ok", ["list", [["list", [_any_cv(x) for x in v.values()]] for v in views + [u8]]]])
+    return out
+
+
+class _Unjudged(Exception):
+    """The sequence copied bytes of a NaN through a view of another type: the
+    outcome depends on the implementation-defined NaN payload."""
+
+
+def cv_match(exp, act):
+    """Equality where ["any"] in the expectation accepts any number."""
+    if exp == ["any"]:
+        return isinstance(act, list) and len(act) == 2 and act[0] == "n"
+    if isinstance(exp, list) and isinstance(act, list) and len(exp) == len(act) and exp and exp[0] in ("list", "ok"):
+        if exp[0] != act[0]:
+            return False
+        if exp[0] == "list":
+            return len(exp[1]) == len(act[1]) and all(cv_match(e, a) for e, a in zip(exp[1], act[1]))
+        return cv_match(exp[1], act[1])
+    return exp == act
+
+
+def seq_run(seq):
+    """-> (expected, actual) in canonical form; expected None when unjudged."""
+    try:
+        exp = seq_expected(seq)
+    except _Unjudged:
+        return None, None
+    st, val = run_eval(seq_js(seq), time_limit=10, alarm=30)
+    if st != "ok":
+        return exp, ["exception", val[0], val[1]]
+    try:
+        act = [["throw", r[1]] if r[0] == "throw" else ["ok", _raw_list_cv(r[1])] for r in val]
+    except Exception:
+        act = ["?", repr(val)[:200]]
+    return exp, act
+
+
+def seq_fails(seq):
+    exp, act = seq_run(seq)
+    if exp is None:
+        return None
+    if isinstance(act, list) and len(act) == len(exp) and all(cv_match(e, a) for e, a in zip(exp, act)):
+        return None
+    if act and act[0] == "exception":
+        kind = "exc:%s" % act[1]
+        i = len(seq["ops"])
+    else:
+        i = next((j for j, (e, a) in enumerate(zip(exp, act)) if not cv_match(e, a)), len(exp) - 1) if isinstance(act, list) and act and act[0] != "?" else 0
+        kind = "final-dump" if i >= len(seq["ops"]) else seq["ops"][i][0]
+        if i < len(exp) and isinstance(act, list) and i < len(act) and isinstance(act[i], list) and act[i] and exp[i][0] != act[i][0]:
+            kind += ":%s-instead-of-%s" % (act[i][0], exp[i][0])
+    return {"signature": "seq|%s" % kind, "expected": exp, "actual": act}
+
+
+def seq_shrink(seq):
+    """ddmin over the operations (drop one at a time while it still fails the same way)."""
+    f = seq_fails(seq)
+    changed = True
+    while changed and f:
+        changed = False
+        for i in range(len(seq["ops"]) - 1, -1, -1):
+            cand = {"views": seq["views"], "ops": seq["ops"][:i] + seq["ops"][i + 1:]}
+            g = seq_fails(cand)
+            if g and g["signature"] == f["signature"]:
+                seq, f, changed = cand, g, True
+    return seq, f
+
+
+def seq_overlap(seq):
+    spans = [(o, o + n * T.size_of(k)) for k, o, n in seq["views"]]
+    return any(a[0] < b[1] and b[0] < a[1] for i, a in enumerate(spans) for b in spans[i + 1:])
+
+
+def eval_seq_batch(seqs):
+    out = []
+    for seq in seqs:
+        f = seq_fails(seq)
+        if f:
+            seq2, f2 = seq_shrink(seq)
+            out.append({"seq": seq2, "fail": f2 or f})
+        else:
+            out.append(None)
+    return out
+
+
+def gen_seqs(seed, n, tmethods):
+    import hypothesis
+    from hypothesis import strategies as st, settings, HealthCheck
+
+    kinds = st.sampled_from(T.KIND_NAMES)
+
+    @st.composite
+    def view(draw):
+        k = draw(kinds)
+        size = T.size_of(k)
+        off = draw(st.integers(0, SEQ_BYTES // size - 1)) * size
+        ln = draw(st.integers(1, (SEQ_BYTES - off) // size))
+        return [k, off, ln]
+
+    val = st.sampled_from(SEQ_VALUES)
+    vi = st.integers(0, 2)
+    idx = st.one_of(st.integers(0, 7).map(num), st.integers(0, 3).map(num), st.sampled_from([num(-1), num(24), num(1.5), sstr("1"), num(-0.0)]))
+    rel = st.one_of(st.none(), st.integers(-3, 8).map(num), st.sampled_from([U, NAN, PINF, num(1.5)]))
+    ops = [st.tuples(st.just("w"), vi, idx, val).map(list), st.tuples(st.just("r"), vi, idx).map(list)]
+    if "set" in tmethods:
+        src = st.one_of(st.lists(val, max_size=4).map(lambda xs: ["arr", xs]), vi.map(lambda j: ["view", j]))
+        if "subarray" in tmethods:
+            src = st.one_of(src, st.tuples(st.just("sub"), vi, st.integers(0, 3).map(num), st.integers(0, 6).map(num)).map(list))
+        off = st.one_of(st.none(), st.integers(0, 6).map(num), st.sampled_from([num(-1), NAN, num(1.5), U]))
+        ops.append(st.tuples(st.just("set"), vi, src, off).map(list))
+    if "subarray" in tmethods:
+        ops.append(st.tuples(st.just("subw"), vi, rel, rel, idx, val).map(list).filter(lambda o: not (o[2] is None and o[3] is not None)))
+    if "fill" in tmethods:
+        ops.append(st.tuples(st.just("fill"), vi, val, rel, rel).map(list).filter(lambda o: not (o[3] is None and o[4] is not None)))
+    seq = st.fixed_dictionaries({"views": st.lists(view(), min_size=3, max_size=3), "ops": st.lists(st.one_of(ops), min_size=1, max_size=12)})
+    got = []
+
+    @hypothesis.seed(seed)
+    @settings(max_examples=n, database=None, deadline=None, derandomize=False, phases=[hypothesis.Phase.generate],
+              suppress_health_check=[HealthCheck.too_slow, HealthCheck.data_too_large])
+    @hypothesis.given(seq)
+    def collect(s_):
+        got.append(s_)
+
+    collect()
+    return got
+
+
+def run_typed_seqs(chk, guards, tmethods):
+    n = 400 if chk.tier == "quick" else 2000
+    seqs = gen_seqs(core.shard_seed(chk.seed, ID, "seqs"), n, tmethods)
+    batches = pool.chunks(seqs, 25)
+    for batch, rb in zip(batches, pool.run(eval_seq_batch, batches, timeout=600)):
+        if isinstance(rb, (pool.HANG, pool.CRASH)):
+            raise engine.HarnessError("C17 sequence batch %r" % rb)
+        for seq, r in zip(batch, rb):
+            chk.count()
+            chk.classify("seq views %s" % ("overlap" if seq_overlap(seq) else "disjoint"))
+            if seq_overlap(seq):
+                chk.nontrivial("seq|" + core.jdump(seq))
+            if r:
+                chk.violation(r["fail"]["signature"], {"kind": "seq", "seq": r["seq"]}, r["fail"]["expected"], r["fail"]["actual"], sub="seq")
+            elif seq_overlap(seq):
+                chk.sample({"sequence": seq, "verdict": "agrees with the byte model"}, cls="seq", per_class=2, total=30)
+
+
+def validate_seqs_with_node(node_run):
+    seqs = gen_seqs(12345, 1500, sorted(TYPED_MODELLED))
+    outs = node_run([seq_js(q) for q in seqs])
+    dis, n, v8 = [], 0, 0
+    for q, o in zip(seqs, outs):
+        try:
+            exp = seq_expected(q)
+        except _Unjudged:
+            continue
+        n += 1
+        if o[0] != "ok":
+            act = ["exception", o[1], o[2]]
+        else:
+            act = [["throw", r[1]] if r[0] == "throw" else ["ok", _raw_list_cv(r[1])] for r in o[1]]
+        if not (len(act) == len(exp) and all(cv_match(e, a) for e, a in zip(exp, act))):
+            if any(o[0] == "fill" and o[3] == U and o[4] is not None for o in q["ops"]):
+                v8 += 1  # V8 20 ignores `end` of %TypedArray%.prototype.fill(v, undefined, end); ES 23.2.3.9 honours it
+                continue
+            dis.append({"seq": q, "model": exp, "node": act})
+    return {"cases": n, "disagreements": len(dis), "examples": dis[:10],
+            "explained_v8_deviation_fill_undefined_start": v8}
+
+
+def validate_typed_with_node(node_run):
+    """Development-time only (tools/c17_validate.py): the typed-array cells
+    and sequences in node versus oracles/typedref.py."""
+    tm = sorted(TYPED_MODELLED)
+    cells = typed_cells(tm)
+    dis, n = [], 0
+    for batch in pool.chunks(cells, 300):
+        outs = node_run([typed_script([c]) for c in batch])
+        for c, o in zip(batch, outs):
+            n += 1
+            exp = typed_cell_expected(c)
+            if o[0] != "ok":
+                act = ["exception", o[1], o[2]]
+            else:
+                raw = o[1][0]
+                act = ["throw", raw[1]] if raw[0] == "throw" else ["ok", _raw_list_cv(raw[1])]
+            if act != exp:
+                dis.append({"cell": c["key"], "model": exp, "node": act})
+    rep = {"cases": n, "disagreements": len(dis), "examples": dis[:40]}
+    seqs = globals().get("validate_seqs_with_node")
+    if seqs:
+        rep["sequences"] = seqs(node_run)
+        rep["disagreements"] += rep["sequences"]["disagreements"]
+    return rep
+
+
 # ====================================================================== main
 def main(chk):
     chk.rule = (
@@ -989,9 +1672,27 @@ def main(chk):
             chk.violation("saved-replay|" + os.path.basename(path), rec.get("case"), r["expected"], r["actual"], sub="replay")
     guards = active_guards(chk)
     chk.extra["active_guards"] = sorted(guards)
+    import time
+
+    t0 = time.time()
     methods = run_grid(chk, guards)
+    chk.extra["grid_cases"], n0 = chk.evaluations, chk.evaluations
+    t1 = time.time()
     run_assign(chk, guards)
+    chk.extra["assign_cells"], n0 = chk.evaluations - n0, chk.evaluations
+    t2 = time.time()
     run_hist(chk, guards, methods)
+    chk.extra["history_steps"], n0 = chk.evaluations - n0, chk.evaluations
+    t3 = time.time()
+    tmethods = discover(TYPED_VOCAB, "new Uint8Array(1)")
+    chk.extra["typed_array_methods"] = tmethods
+    chk.extra["unmodelled_typed_array_methods"] = [m for m in tmethods if m not in TYPED_MODELLED]
+    run_typed_cells(chk, guards, tmethods)
+    chk.extra["typed_cells"], n0 = chk.evaluations - n0, chk.evaluations
+    run_typed_seqs(chk, guards, tmethods)
+    chk.extra["typed_sequences"], n0 = chk.evaluations - n0, chk.evaluations
+    t4 = time.time()
+    chk.extra["wall_parts_s"] = {"grid": round(t1 - t0, 1), "assign": round(t2 - t1, 1), "hist": round(t3 - t2, 1), "typed": round(t4 - t3, 1)}
     chk.exhaustive = False
 
 
@@ -1004,6 +1705,14 @@ def replay(rec):
             _, _, exp, act, _ = r["bad"][0]
             return {"fails": True, "expected": exp, "actual": act}
         return {"fails": False, "expected": None, "actual": None}
+    if kind == "seq":
+        f = seq_fails(case["seq"])
+        if f:
+            return {"fails": True, "expected": f["expected"], "actual": f["actual"]}
+        return {"fails": False, "expected": None, "actual": None}
+    if kind == "typed":
+        exp, act = eval_typed_batch([case["cell"]])[0]
+        return {"fails": exp != act, "expected": exp, "actual": act}
     if kind == "hist":
         f, _ = run_history(case["steps"])
         if f:
